@@ -193,6 +193,7 @@ func (s *swamp) PatchFields(key string, ops []msgpackpatch.Op, condition *msgpac
 		treasureObj = s.CreateTreasure(key)
 		createdNew = true
 	}
+	verifhook.Point("swamp.patchFields.obtained")
 
 	guardID := treasureObj.StartTreasureGuard(true)
 	defer treasureObj.ReleaseTreasureGuard(guardID)
